@@ -43,7 +43,7 @@ func init() {
 			return "named-string-or-bool-values"
 		case "pointers":
 			return "pointer-inside-interface-slot"
-		case "structs", "structs-shuffled", "typed-structs":
+		case "structs", "structs-shuffled", "typed-structs", "pointer-to-struct-with-arrays":
 			if wholeObjectQuery.MatchString(q) {
 				return "struct-vs-map-whole-object"
 			}
@@ -146,6 +146,26 @@ func renderingsC10(rng *rand.Rand) []rendering {
 				}
 				return x
 			})
+		}},
+		{"pointer-to-struct-with-arrays", func(d *D) *D {
+			// the document as a POINTER to a struct whose list-valued fields are Go arrays
+			arr := mapD(toStruct(d), func(x *D) *D {
+				if x.Tag == "sl" && len(x.Xs) > 0 {
+					return &D{Tag: "ar", Ety: "any", Xs: x.Xs}
+				}
+				if x.Tag == "st" { // the array fields are declared with their array type, not as `any`
+					n := *x
+					n.Fs = append([]h.Field{}, x.Fs...)
+					for i := range n.Fs {
+						if n.Fs[i].V.Tag == "ar" {
+							n.Fs[i].Iface = false
+						}
+					}
+					return &n
+				}
+				return x
+			})
+			return h.PtrTo(arr)
 		}},
 		{"typed-slices", func(d *D) *D {
 			return mapD(d, func(x *D) *D {
